@@ -4,7 +4,9 @@ import vlib
 
 PID = "C06"
 REWRITES = [("pkg/station/lib/registration_config.go", ["-swap", "net=vnet"]),
-            ("pkg/station/lib/proxies.go", ["-swap", "net=vnet"])]
+            ("pkg/station/lib/proxies.go", ["-swap", "net=vnet"]),
+            ("pkg/station/lib/registration.go", ["-swap", "time=vtime"]),
+            ("pkg/station/lib/registration_ingest.go", ["-swap", "time=vtime"])]
 INJECTS = [("harness/libacc/lib_verif.go", "pkg/station/lib/zz_verif_acc.go"),
            ("harness/c06/main/main.go", "internal/zzverif_c06/main.go")]
 ASSUME = ["resolver and dial are seams (vnet import rewrite of registration_config.go and proxies.go): names are answered by a per-case script, IP literals by the real net.ResolveIPAddr (which does no lookup for literals)",
